@@ -53,7 +53,9 @@ META['C06'] = {
             '(spec settled_at: the latest event of each member decides) and reports the status of the last stage\'s latest event; a job is Stopped exactly when all its live members '
             'are stopped (member continued -> Running; member removed -> re-evaluated); WaitStatus accessors; state transitions of the jobc layer.',
     'note': 'std HashMap/HashSet/Vec contracts (vstd; get_mut and binary_search/position written out); < 65533 jobs; insert_job caller facts '
-            '(same-gid job has all smaller ids occupied, pid fresh) assumed; job-control event protocol (wait_fg_job / try_wait_bg_jobs) is U-WAIT.',
+            '(same-gid job has all smaller ids occupied, pid fresh) assumed; job-control event protocol (wait_fg_job / try_wait_bg_jobs) is U-WAIT; '
+            'the two callers of waitpid (jobc::waitpidx, signals::handle_sigchld) are under contract in U-SIG: stops and continues are asked for, the call blocks exactly when told to, '
+            'the (pid, kind, code) triple is the one of the kernel answer, every event is parked under its kind; the maps of signals.rs themselves are static state outside the verifier (bounded hook histories).',
 }
 
 META['C05'] = {
